@@ -177,8 +177,11 @@ def run(fx, tier):
     public_call_arguments_rule(fx, v, 'C01', ('async_publish',))
     # the acknowledged PUBLISH is the one the caller passed: a retransmission differs from it in the DUP bit only
     from c03 import set_dup_rule
-    v.rule('R-OWN', 'set_dup changes exactly the DUP bit of the stored packet; nothing else writes the stored bytes')
+    v.rule('R-OWN', 'set_dup changes exactly the DUP bit of the stored packet; nothing else writes the stored bytes; packet identifiers are allocated and released by the request operations only')
     set_dup_rule(fx, v, 'C01')
+    # ... and its identifier is the client's own: only the request operations allocate and release identifiers (shared with C08)
+    from c08 import pid_owner_rule
+    pid_owner_rule(fx, v, 'C01')
     # which acknowledgements are admitted decides which publishes complete (shared with C20)
     from c20 import table_rows_rule
     if 'R-TABLE' not in v.rules:
